@@ -102,6 +102,12 @@ func genDecLargeHistory(t *rapid.T, x *decExec, faults bool) {
 		if x.buf != nil {
 			// write, wmatch, wblock, read, writeto, reset, steady
 			op = []int{0, 1, 2, 3, 4, 5, 8}[weighted(t, "op", 3, 4, 4, 3, 3, 1, 2)]
+			if room := cc.BufferSize - len(x.buf.Data); room < 1<<20 && bound >= 1 && rapid.Bool().Draw(t, "matchAtFullBuffer") {
+				// the buffer is about to be full: every kind of operand
+				// should meet that moment, WriteMatch is otherwise the
+				// rarest of them
+				op = 1
+			}
 		} else {
 			// write, (no wmatch), wblock, flush, reinit/reset, wbyte, steady
 			op = []int{0, 2, 6, 5, 7, 8}[weighted(t, "op", 3, 6, 2, 1, 1, 2)]
